@@ -310,6 +310,37 @@ func gateOf(p *pkg, fd *ast.FuncDecl, name string) []string {
 	return out
 }
 
+// callOrder: which of the named functions are called from fd (helpers inlined), in source order.
+func callOrder(p *pkg, fd *ast.FuncDecl, names map[string]bool) []string {
+	var seq []string
+	var walk func(fd *ast.FuncDecl, depth int)
+	walk = func(fd *ast.FuncDecl, depth int) {
+		ast.Inspect(fd.Body, func(n ast.Node) bool {
+			ce, ok := n.(*ast.CallExpr)
+			if !ok {
+				return true
+			}
+			name := ""
+			switch f := ce.Fun.(type) {
+			case *ast.Ident:
+				name = f.Name
+			case *ast.SelectorExpr:
+				name = f.Sel.Name
+			}
+			if names[name] {
+				seq = append(seq, name)
+				return true
+			}
+			if d := p.resolve(ce); d != nil && depth < 4 {
+				walk(d, depth+1)
+			}
+			return true
+		})
+	}
+	walk(fd, 0)
+	return seq
+}
+
 func main() {
 	repo := Repo()
 	Header(repo)
@@ -346,8 +377,10 @@ func main() {
 		}
 	}
 	updGate := []string{"missing"}
+	var ebOrder []string
 	if fd := ap.fn("EndBlocker"); fd != nil {
 		updGate = gateOf(ap, fd, "UpdateExchangeRates")
+		ebOrder = callOrder(ap, fd, map[string]bool{"UpdateExchangeRates": true, "SlashAndResetMissCounters": true})
 	}
 	expiry, expiryText := "ExpiryOther", ""
 	if fd := kp.fn("clearExchangeRates"); fd != nil {
@@ -418,6 +451,7 @@ func main() {
 	fmt.Printf("  cc_pipeline := %s;\n", coqStrs(pipe))
 	fmt.Printf("  cc_clear_votes_guards := %d;\n", clearGuards)
 	fmt.Printf("  cc_update_gate := %s;\n", coqStrs(updGate))
+	fmt.Printf("  cc_endblock_order := %s;\n", coqStrs(ebOrder))
 	fmt.Printf("  cc_rounding := %s;\n", round)
 	fmt.Printf("  cc_threshold_from_param := %s;\n", CoqBool(fromThr))
 	fmt.Printf("  cc_skips_ineligible := %s;\n", CoqBool(skips))
